@@ -160,6 +160,24 @@ let cexpr_main () =
       (match m_eval e with Val v -> string_of_z v | ErrDivZero -> "err-div-zero" | ErrOverflow -> "err-overflow" | HostUB -> "host-ub")
   done with End_of_file -> ())
 
+(* ---------------- integer code generation (C01) ---------------- *)
+let string_of_chars (l : char list) : string = String.init (List.length l) (List.nth l)
+let insns_text l = String.concat "; " (List.map (fun i -> string_of_chars (insn_text i)) l)
+(* stdin: "cast <from> <to>" | "binop <op> <type>" | "unop <op> <type>"; stdout: the instructions the model emits *)
+let codegen_main () =
+  (try while true do
+    let line = String.trim (input_line stdin) in
+    (match List.filter (fun s -> s <> "") (String.split_on_char ' ' line) with
+     | ["cast"; f; t] ->
+       (match gen_cast cast_table (ity_of_string f) (ity_of_string t) with
+        | Some l -> print_endline ("I " ^ insns_text l) | None -> print_endline "TEXT")
+     | ["binop"; o; t] -> print_endline ("I " ^ insns_text (gen_binop (binop_of o) (ity_of_string t)))
+     | ["unop"; o; t] -> print_endline ("I " ^ insns_text (gen_unop (unop_of o) (ity_of_string t)))
+     | ["uac"; a; b] -> print_endline (string_of_ity (uac (ity_of_string a) (ity_of_string b)))
+     | ["promote"; a] -> print_endline (string_of_ity (promote (ity_of_string a)))
+     | _ -> failwith ("bad line: " ^ line))
+  done with End_of_file -> ())
+
 (* ---------------- layout / declspec ---------------- *)
 (* stdin: "S|U <packed 0|1> <align0> <size align bf named>*"  (bf = -1 for an ordinary member)
    stdout: "<size> <align> <off:bit>*" *)
@@ -207,6 +225,7 @@ let declspec_run_main () =
 let () =
   match Array.to_list Sys.argv with
   | [_; "cexpr"] -> cexpr_main ()
+  | [_; "codegen"] -> codegen_main ()
   | [_; "layout"] -> layout_main ()
   | [_; "declspec-spec"] -> declspec_main ()
   | [_; "declspec-run"] -> declspec_run_main ()
